@@ -259,7 +259,10 @@ def n_workers():
     return n
 
 
-def run_pool(run_fn, indices, workers=None, wall_timeout=3300.0, init_fn=None, fini_fn=None):
+POOL_WALL = {"value": 3300.0}  # wall watchdog of one pool batch (main raises it for thorough)
+
+
+def run_pool(run_fn, indices, workers=None, wall_timeout=None, init_fn=None, fini_fn=None):
     """Execute run_fn(idx) for every idx; returns {idx: result}.
 
     Static interleaved partition: worker k gets indices[k::workers].  Results
@@ -268,6 +271,7 @@ def run_pool(run_fn, indices, workers=None, wall_timeout=3300.0, init_fn=None, f
     errors inside run_fn are reported as {'harness': traceback}.
     """
     indices = list(indices)
+    wall_timeout = wall_timeout or POOL_WALL["value"]
     workers = workers or n_workers()
     workers = max(1, min(workers, len(indices)))
     base = os.path.join(SHM, f"pgsim-pool-{os.getpid()}-{time.monotonic_ns()}")
